@@ -219,6 +219,51 @@ func videoTagCase(c *h.Ctx, bucket string, b []byte) {
 func c10(c *h.Ctx) {
 	r := c.R
 
+	// 0a. one packager, several frames, every tag RETAINED until all are encoded: a tag handed out must stay
+	// what it was (no aliasing of packager-internal buffers), and must still decode to its own frame.
+	{
+		ap, _ := flv.NewAudioPackager()
+		vp, _ := flv.NewVideoPackager()
+		type kept struct {
+			tag  []byte
+			snap string
+			in   string
+			aud  bool
+		}
+		var keep []kept
+		for i := 0; i < 40; i++ {
+			if i%2 == 0 {
+				f := &flv.AudioFrame{SoundFormat: flv.AudioCodec(r.Pick(10, 13, 2, 13)), SoundRate: flv.AudioSamplingRate(3), SoundSize: 1, SoundType: 1, Raw: r.Bytes(1 + r.Intn(12))}
+				if f.SoundFormat == 13 {
+					f.SoundRate = 0
+					f.Trait = flv.AudioFrameTrait(r.Pick(0, 4, 8, 12))
+					if f.Trait&4 == 4 {
+						f.SoundRate = flv.AudioSamplingRate(r.Pick(8, 12, 16, 24, 48))
+					}
+					if f.Trait&8 == 8 {
+						f.AudioLevel = uint16(r.Intn(65536))
+					}
+				}
+				if b, err := ap.Encode(f); err == nil {
+					keep = append(keep, kept{b, h.Hex(b), fmt.Sprintf("retained audio #%d fmt=%d trait=%d raw=%s", i, f.SoundFormat, f.Trait, h.Hex(f.Raw)), true})
+				}
+			} else {
+				f := flv.NewVideoFrame()
+				f.CodecID, f.FrameType, f.Trait, f.CTS, f.Raw = flv.VideoCodec(r.Pick(7, 12, 2)), flv.VideoFrameType(1+r.Intn(5)), flv.VideoFrameTrait(r.Intn(2)), int32(r.Pick(0, 1, 0x10000, 0xffffff)), r.Bytes(r.Intn(12))
+				if f.CodecID == 2 {
+					f.Trait, f.CTS = 0, 0
+				}
+				if b, err := vp.Encode(f); err == nil {
+					keep = append(keep, kept{b, h.Hex(b), fmt.Sprintf("retained video #%d codec=%d cts=%d raw=%s", i, f.CodecID, f.CTS, h.Hex(f.Raw)), false})
+				}
+			}
+		}
+		for _, k := range keep {
+			c.Hold(h.Hex(k.tag) == k.snap, "encode.tag_not_aliased", k.in, h.Hex(k.tag), k.snap)
+			c.Case("retained-tags", k.in, true)
+		}
+	}
+
 	// 0. fixed regression cases (F7, F8, F9) — the formerly failing inputs.
 	for _, v := range []int{4, 8, 12, 16, 24, 48} { // F7
 		in := fmt.Sprintf("flv.tohz %d", v)
